@@ -247,6 +247,11 @@ fn grammar_case(rng: &mut Rng) -> Case {
     if rng.chance(1, 4) {
         return single("grammar:constant-boundary", const_boundary_program(rng));
     }
+    if rng.chance(1, 5) {
+        // macro systems (object-like and function-like, pasting, empty arguments, names that reach themselves through bodies and
+        // arguments): whatever they expand to, the preprocessor must terminate
+        return single("grammar:macro-program", crate::checks::c12::gen_macro_program(rng));
+    }
     let (family, text) = match rng.below(3) {
         0 => {
             let cfg = crate::gen::prog::Config {
